@@ -1,10 +1,12 @@
-CONSTANTS CMAX = 5
-WLO = 5
+\* two counter words (8-byte nonce): 3 values of h[12] x 2 values of h[13]
+CONSTANTS CMAX = 6
+WLO = 3
 KS = 2
 MaxCalls = 5
-Sticky = FALSE
+Sticky = TRUE
 EmitHist = FALSE
 SPECIFICATION Spec
+INVARIANT CarryIsIncrement
 INVARIANT PositionCorrect
 INVARIANT WithinLimit
 PROPERTY StaysExhausted
